@@ -3,8 +3,8 @@
 Inputs: renderings of trees in the documented syntax (printed by TLC from spec/ConfSyntax.tla),
 truncated at every byte, with single bytes replaced / deleted / inserted from a hostile
 alphabet, plus all short byte strings over a reduced alphabet; each loaded by the real
-conf_read() (harness/h_confparse, ASan+UBSan) on top of each of three prior states (nothing
-loaded; after F1; after F1 then F2 - with registered nodes of all four kinds).  Every load is
+conf_read() (harness/h_confparse, ASan+UBSan) on top of each of four prior states (nothing
+loaded; after F1; after F1 then F2; after F1 then F3 = lists grown past their first allocation - with registered nodes of all four kinds).  Every load is
 recorded as begin (bytes, dump before) / end (rc, dump after, hook log); TLC
 (spec/ConfParseTrace) judges every line: begin has its end (no crash, no hang), rc # 0 =>
 dump unchanged and no hook ran, rc = 0 => the live tree is a well-formed configuration in
@@ -42,11 +42,17 @@ F2 = b'plain yy;addr h2 82\nlst ()\nobj { num 13; ival 2h }\nother { p q r }\n'
 UNIT = (b'test_config {\n    plain jane;\n    list this, funky, people;\n    inaddr "::1" 8080\n'
         b'    escaped "\\a\\b\\f\\n\\r\\t\\v\\x41"\n    empty_list ()\n\n    integer 321;\n    volume 1G2M3K4;\n}\n')
 
+# lists that grew beyond their first allocation (4, 8 elements) before the input is applied
+F3 = (b'plain ww\nlst (a, b, c, d, e, f, g, h, i)\nobj { num 14 }\n'
+      b'new { k v2; l (1, 2, 3, 4, 5, 6) }\nother { m (1, 2, 3, 4, 5) }\n')
+
 STATES = [
     ("S0", REGISTER, {}),
     ("S1", REGISTER + ["load F1 " + H(F1)], {"F1": (REGISTER, F1)}),
     ("S2", REGISTER + ["load F1 " + H(F1), "load F2 " + H(F2)],
      {"F1": (REGISTER, F1), "F2": (REGISTER + ["load F1 " + H(F1)], F2)}),
+    ("S3", REGISTER + ["load F1 " + H(F1), "load F3 " + H(F3)],
+     {"F1": (REGISTER, F1), "F3": (REGISTER + ["load F1 " + H(F1)], F3)}),
 ]
 
 HOSTILE = [b"{", b"}", b"(", b")", b",", b";", b'"', b"\\", b"/", b"*", b"\n", b" ", b"a", b"x", b"4", b"#",
@@ -231,7 +237,7 @@ def run(ctx):
     ctx.cov["distinct_nontrivial"] = failed
     ctx.cov["rule"] = ("inputs = TLC-rendered valid files (spec/ConfSyntax.tla) truncated at every byte, every byte deleted, replaced and "
                        "preceded by a random byte of a 22-symbol hostile alphabet (incl. NUL, 0x80, 0xff), plus all strings up to "
-                       "length 3 (thorough: and 4) over a reduced alphabet; each distinct input is loaded on top of 3 prior states. "
+                       "length 3 (thorough: and 4) over a reduced alphabet; each distinct input is loaded on top of 4 prior states. "
                        "Counted as non-trivial: (prior state, input) pairs whose load FAILED (rc != 0), i.e. the cases in which "
                        "atomicity is actually at stake; all pairs are distinct by construction.")
     ctx.cov["rc_histogram"] = rcs
